@@ -817,13 +817,20 @@ def main():
             collect(h, results)
     else:
         collect(h, map(run_chunk, chunks))
-    lens = "6 (first 4 atoms at lengths 5-6)" if h.thorough else "3 (4 with the first 4 atoms for the flat list key)"
-    sys.exit(h.finish(exhaustive=True, bound="0-3 default config files in %d layouts (direct, glob with creation order != sorted order, missing%s) x 3 contents per file; "
-                      "env config {none, string, file} x 3 contents; env variables {none, 2 sets, each key alone}; every sequence of <= %s command line items over the "
-                      "atoms of one focus key (option, '+' scalar, '+' list, dict item, config file, config string) on an empty and a full pre-chain; parse_args, "
-                      "parse_string, parse_path, parse_object, parse_env (os.environ / dict); default_env off/on/JSONARGPARSE_DEFAULT_ENV/env=True/env=False; "
-                      "env_prefix 'APP'/False/from prog%s"
-                      % (len(layouts(h.thorough)), ", empty, ~, '?' glob" if h.thorough else "", lens, "; + 40000 seeded random chains" if h.thorough else "")))
+    if h.thorough:
+        bound = ("0-3 default config files in %d layouts (direct paths, a glob whose listing order differs from the sorted order, a missing file, an empty file, ~, a '?' glob "
+                 "with a non-matching file) x 3-5 contents per file; env config {none, string, file} x 3 contents (+1 without appends); env variables {none, 2 sets, each "
+                 "key alone}; every sequence of <= 6 command line items over the atoms of one focus key (option, '+' scalar, '+' list, dict item, config file, config "
+                 "string; first 4 atoms at lengths 5-6) on an empty and a full pre-chain; parse_args, parse_string, parse_path, parse_object, parse_env (os.environ / "
+                 "dict); default_env off / on / JSONARGPARSE_DEFAULT_ENV / env=True / env=False; env_prefix 'APP' / False / from prog; + 40000 seeded random chains"
+                 % len(layouts(True)))
+    else:
+        bound = ("0-3 default config files in 6 layouts (direct paths, a glob - before and after a direct path - whose listing order differs from the sorted order, a missing "
+                 "file) x 3 contents per file; env config {none, string, file} x 5 of 8 contents; env variables {none, 2 sets, each key alone}; every sequence of <= 3 "
+                 "command line items over the 4-7 atoms of one focus key (option, '+' scalar, '+' list, dict item, config file, config string; <= 4 items over 4 atoms for "
+                 "the flat list key) on an empty pre-chain and <= 2 items on a full one; parse_string / parse_object / parse_path / parse_env (os.environ / dict) on <= 3 / "
+                 "2 / 1 / 3 files; default_env off / on / JSONARGPARSE_DEFAULT_ENV / env=True / env=False; env_prefix 'APP' / False / from prog")
+    sys.exit(h.finish(exhaustive=True, bound=bound))
 
 
 def collect(h, results):
